@@ -7,18 +7,6 @@ def IncCurrent_supplyLimit_1 (coin : Coin) (limit_Limit : Int) : Option (Coin) :
   let t1 ← NewCoin coin.denom limit_Limit
   some t1
 
-def IncCurrent_timeBasedSupplyLimit_1 (coin : Coin) (limit_TimeBasedLimit : Int) : Option (Coin) := do
-  let t1 ← NewCoin coin.denom limit_TimeBasedLimit
-  some t1
-
-def IncCurrent_supply_TimeLimitedCurrentSupply_1 (supply_TimeLimitedCurrentSupply : Coin) (coin : Coin) : Option (Coin) := do
-  let t1 ← Coin_Add supply_TimeLimitedCurrentSupply coin
-  some t1
-
-def IncCurrent_supply_CurrentSupply_1 (supply_CurrentSupply : Coin) (coin : Coin) : Option (Coin) := do
-  let t1 ← Coin_Add supply_CurrentSupply coin
-  some t1
-
 /-- rejects when true: `supplyLimit.IsLT(supply.CurrentSupply.Add(coin))` -/
 def IncCurrent_guard_1 (supplyLimit : Coin) (supply_CurrentSupply : Coin) (coin : Coin) : Option (Bool) := do
   let t1 ← Coin_Add supply_CurrentSupply coin
@@ -29,14 +17,22 @@ def IncCurrent_guard_1 (supplyLimit : Coin) (supply_CurrentSupply : Coin) (coin 
 def IncCurrent_cond_2 (limit_TimeLimited : Bool) : Option (Bool) := do
   some limit_TimeLimited
 
+def IncCurrent_timeBasedSupplyLimit_1 (coin : Coin) (limit_TimeBasedLimit : Int) : Option (Coin) := do
+  let t1 ← NewCoin coin.denom limit_TimeBasedLimit
+  some t1
+
 /-- rejects when true: `timeBasedSupplyLimit.IsLT(supply.TimeLimitedCurrentSupply.Add(coin))` -/
 def IncCurrent_guard_3 (timeBasedSupplyLimit : Coin) (supply_TimeLimitedCurrentSupply : Coin) (coin : Coin) : Option (Bool) := do
   let t1 ← Coin_Add supply_TimeLimitedCurrentSupply coin
   let t2 ← Coin_IsLT timeBasedSupplyLimit t1
   some t2
 
-def DecCurrent_supply_CurrentSupply_1 (supply_CurrentSupply : Coin) (coin : Coin) : Option (Coin) := do
-  let t1 ← Coin_Sub supply_CurrentSupply coin
+def IncCurrent_supply_TimeLimitedCurrentSupply_1 (supply_TimeLimitedCurrentSupply : Coin) (coin : Coin) : Option (Coin) := do
+  let t1 ← Coin_Add supply_TimeLimitedCurrentSupply coin
+  some t1
+
+def IncCurrent_supply_CurrentSupply_1 (supply_CurrentSupply : Coin) (coin : Coin) : Option (Coin) := do
+  let t1 ← Coin_Add supply_CurrentSupply coin
   some t1
 
 /-- rejects when true: `supply.CurrentSupply.Amount.Sub(coin.Amount).IsNegative()` -/
@@ -44,24 +40,16 @@ def DecCurrent_guard_1 (supply_CurrentSupply : Coin) (coin : Coin) : Option (Boo
   let t1 ← Int_Sub supply_CurrentSupply.amount coin.amount
   some (Int_IsNegative t1)
 
+def DecCurrent_supply_CurrentSupply_1 (supply_CurrentSupply : Coin) (coin : Coin) : Option (Coin) := do
+  let t1 ← Coin_Sub supply_CurrentSupply coin
+  some t1
+
 def IncIncoming_totalSupply_1 (supply_CurrentSupply : Coin) (supply_IncomingSupply : Coin) : Option (Coin) := do
   let t1 ← Coin_Add supply_CurrentSupply supply_IncomingSupply
   some t1
 
 def IncIncoming_supplyLimit_1 (coin : Coin) (limit_Limit : Int) : Option (Coin) := do
   let t1 ← NewCoin coin.denom limit_Limit
-  some t1
-
-def IncIncoming_timeLimitedTotalSupply_1 (supply_TimeLimitedCurrentSupply : Coin) (supply_IncomingSupply : Coin) : Option (Coin) := do
-  let t1 ← Coin_Add supply_TimeLimitedCurrentSupply supply_IncomingSupply
-  some t1
-
-def IncIncoming_timeBasedSupplyLimit_1 (coin : Coin) (limit_TimeBasedLimit : Int) : Option (Coin) := do
-  let t1 ← NewCoin coin.denom limit_TimeBasedLimit
-  some t1
-
-def IncIncoming_supply_IncomingSupply_1 (supply_IncomingSupply : Coin) (coin : Coin) : Option (Coin) := do
-  let t1 ← Coin_Add supply_IncomingSupply coin
   some t1
 
 /-- rejects when true: `supplyLimit.IsLT(totalSupply.Add(coin))` -/
@@ -74,14 +62,22 @@ def IncIncoming_guard_1 (supplyLimit : Coin) (totalSupply : Coin) (coin : Coin) 
 def IncIncoming_cond_2 (limit_TimeLimited : Bool) : Option (Bool) := do
   some limit_TimeLimited
 
+def IncIncoming_timeLimitedTotalSupply_1 (supply_TimeLimitedCurrentSupply : Coin) (supply_IncomingSupply : Coin) : Option (Coin) := do
+  let t1 ← Coin_Add supply_TimeLimitedCurrentSupply supply_IncomingSupply
+  some t1
+
+def IncIncoming_timeBasedSupplyLimit_1 (coin : Coin) (limit_TimeBasedLimit : Int) : Option (Coin) := do
+  let t1 ← NewCoin coin.denom limit_TimeBasedLimit
+  some t1
+
 /-- rejects when true: `timeBasedSupplyLimit.IsLT(timeLimitedTotalSupply.Add(coin))` -/
 def IncIncoming_guard_3 (timeBasedSupplyLimit : Coin) (timeLimitedTotalSupply : Coin) (coin : Coin) : Option (Bool) := do
   let t1 ← Coin_Add timeLimitedTotalSupply coin
   let t2 ← Coin_IsLT timeBasedSupplyLimit t1
   some t2
 
-def DecIncoming_supply_IncomingSupply_1 (supply_IncomingSupply : Coin) (coin : Coin) : Option (Coin) := do
-  let t1 ← Coin_Sub supply_IncomingSupply coin
+def IncIncoming_supply_IncomingSupply_1 (supply_IncomingSupply : Coin) (coin : Coin) : Option (Coin) := do
+  let t1 ← Coin_Add supply_IncomingSupply coin
   some t1
 
 /-- rejects when true: `supply.IncomingSupply.Amount.Sub(coin.Amount).IsNegative()` -/
@@ -89,8 +85,8 @@ def DecIncoming_guard_1 (supply_IncomingSupply : Coin) (coin : Coin) : Option (B
   let t1 ← Int_Sub supply_IncomingSupply.amount coin.amount
   some (Int_IsNegative t1)
 
-def IncOutgoing_supply_OutgoingSupply_1 (supply_OutgoingSupply : Coin) (coin : Coin) : Option (Coin) := do
-  let t1 ← Coin_Add supply_OutgoingSupply coin
+def DecIncoming_supply_IncomingSupply_1 (supply_IncomingSupply : Coin) (coin : Coin) : Option (Coin) := do
+  let t1 ← Coin_Sub supply_IncomingSupply coin
   some t1
 
 /-- rejects when true: `supply.CurrentSupply.IsLT(supply.OutgoingSupply.Add(coin))` -/
@@ -99,8 +95,8 @@ def IncOutgoing_guard_1 (supply_CurrentSupply : Coin) (supply_OutgoingSupply : C
   let t2 ← Coin_IsLT supply_CurrentSupply t1
   some t2
 
-def DecOutgoing_supply_OutgoingSupply_1 (supply_OutgoingSupply : Coin) (coin : Coin) : Option (Coin) := do
-  let t1 ← Coin_Sub supply_OutgoingSupply coin
+def IncOutgoing_supply_OutgoingSupply_1 (supply_OutgoingSupply : Coin) (coin : Coin) : Option (Coin) := do
+  let t1 ← Coin_Add supply_OutgoingSupply coin
   some t1
 
 /-- rejects when true: `supply.OutgoingSupply.Amount.Sub(coin.Amount).IsNegative()` -/
@@ -108,13 +104,9 @@ def DecOutgoing_guard_1 (supply_OutgoingSupply : Coin) (coin : Coin) : Option (B
   let t1 ← Int_Sub supply_OutgoingSupply.amount coin.amount
   some (Int_IsNegative t1)
 
-/-- argument 1 of `k.IncrementIncomingAssetSupply` -/
-def createHTLT_call_IncrementIncomingAssetSupply_1_arg1 (amount_0 : Coin) : Option (Coin) := do
-  some amount_0
-
-/-- argument 1 of `k.IncrementOutgoingAssetSupply` -/
-def createHTLT_call_IncrementOutgoingAssetSupply_1_arg1 (amount_0 : Coin) : Option (Coin) := do
-  some amount_0
+def DecOutgoing_supply_OutgoingSupply_1 (supply_OutgoingSupply : Coin) (coin : Coin) : Option (Coin) := do
+  let t1 ← Coin_Sub supply_OutgoingSupply coin
+  some t1
 
 /-- rejects when true: `len(amount) != 1` -/
 def createHTLT_guard_1 (read_len_amount : Int) : Option (Bool) := do
@@ -140,6 +132,10 @@ def createHTLT_guard_5 (read_to_Equals_deputyAddress : Bool) : Option (Bool) := 
 def createHTLT_guard_6 (read_to_Equals_deputyAddress : Bool) : Option (Bool) := do
   some (!read_to_Equals_deputyAddress)
 
+/-- argument 1 of `k.IncrementIncomingAssetSupply` -/
+def createHTLT_call_IncrementIncomingAssetSupply_1_arg1 (amount_0 : Coin) : Option (Coin) := do
+  some amount_0
+
 /-- rejects when true: `timeLock < asset.MinBlockLock || timeLock > asset.MaxBlockLock` -/
 def createHTLT_guard_7 (timeLock : Nat) (asset_MinBlockLock : Nat) (asset_MaxBlockLock : Nat) : Option (Bool) := do
   some ((decide (timeLock < asset_MinBlockLock)) || (decide (timeLock > asset_MaxBlockLock)))
@@ -148,6 +144,10 @@ def createHTLT_guard_7 (timeLock : Nat) (asset_MinBlockLock : Nat) (asset_MaxBlo
 def createHTLT_guard_8 (amount_0 : Coin) (asset_FixedFee : Int) (asset_MinSwapAmount : Int) : Option (Bool) := do
   let t1 ← Int_Add asset_FixedFee asset_MinSwapAmount
   some (Int_LT amount_0.amount t1)
+
+/-- argument 1 of `k.IncrementOutgoingAssetSupply` -/
+def createHTLT_call_IncrementOutgoingAssetSupply_1_arg1 (amount_0 : Coin) : Option (Coin) := do
+  some amount_0
 
 /-- argument 1 of `k.DecrementIncomingAssetSupply` -/
 def claimHTLT_call_DecrementIncomingAssetSupply_1_arg1 (htlc_Amount_0 : Coin) : Option (Coin) := do
@@ -176,20 +176,20 @@ def refundHTLT_call_DecrementOutgoingAssetSupply_1_arg1 (amount_0 : Coin) : Opti
 def UpdateWindow_newTimeElapsed_1 (supply_TimeElapsed : Int) (timeElapsed : Int) : Option (Int) := do
   some (I64_Add supply_TimeElapsed timeElapsed)
 
+/-- branch condition: `asset.SupplyLimit.TimeLimited && newTimeElapsed < asset.SupplyLimit.TimePeriod` -/
+def UpdateWindow_cond_1 (asset_SupplyLimit_TimeLimited : Bool) (newTimeElapsed : Int) (asset_SupplyLimit_TimePeriod : Int) : Option (Bool) := do
+  some (asset_SupplyLimit_TimeLimited && (decide (newTimeElapsed < asset_SupplyLimit_TimePeriod)))
+
 def UpdateWindow_supply_TimeElapsed_1 (newTimeElapsed : Int) : Option (Int) := do
   some newTimeElapsed
 
 def UpdateWindow_supply_TimeElapsed_2 : Option (Int) := do
   some (0 : Int)
 
-/-- branch condition: `asset.SupplyLimit.TimeLimited && newTimeElapsed < asset.SupplyLimit.TimePeriod` -/
-def UpdateWindow_cond_1 (asset_SupplyLimit_TimeLimited : Bool) (newTimeElapsed : Int) (asset_SupplyLimit_TimePeriod : Int) : Option (Bool) := do
-  some (asset_SupplyLimit_TimeLimited && (decide (newTimeElapsed < asset_SupplyLimit_TimePeriod)))
-
 /-- targets the translator refused, with the reason (must be empty) -/
 def untranslated : List String := []
 
 /-- names of the translated definitions -/
-def translated : List String := ["IncCurrent_supplyLimit_1(coin,limit_Limit)", "IncCurrent_timeBasedSupplyLimit_1(coin,limit_TimeBasedLimit)", "IncCurrent_supply_TimeLimitedCurrentSupply_1(supply_TimeLimitedCurrentSupply,coin)", "IncCurrent_supply_CurrentSupply_1(supply_CurrentSupply,coin)", "IncCurrent_guard_1(supplyLimit,supply_CurrentSupply,coin)", "IncCurrent_cond_2(limit_TimeLimited)", "IncCurrent_guard_3(timeBasedSupplyLimit,supply_TimeLimitedCurrentSupply,coin)", "DecCurrent_supply_CurrentSupply_1(supply_CurrentSupply,coin)", "DecCurrent_guard_1(supply_CurrentSupply,coin)", "IncIncoming_totalSupply_1(supply_CurrentSupply,supply_IncomingSupply)", "IncIncoming_supplyLimit_1(coin,limit_Limit)", "IncIncoming_timeLimitedTotalSupply_1(supply_TimeLimitedCurrentSupply,supply_IncomingSupply)", "IncIncoming_timeBasedSupplyLimit_1(coin,limit_TimeBasedLimit)", "IncIncoming_supply_IncomingSupply_1(supply_IncomingSupply,coin)", "IncIncoming_guard_1(supplyLimit,totalSupply,coin)", "IncIncoming_cond_2(limit_TimeLimited)", "IncIncoming_guard_3(timeBasedSupplyLimit,timeLimitedTotalSupply,coin)", "DecIncoming_supply_IncomingSupply_1(supply_IncomingSupply,coin)", "DecIncoming_guard_1(supply_IncomingSupply,coin)", "IncOutgoing_supply_OutgoingSupply_1(supply_OutgoingSupply,coin)", "IncOutgoing_guard_1(supply_CurrentSupply,supply_OutgoingSupply,coin)", "DecOutgoing_supply_OutgoingSupply_1(supply_OutgoingSupply,coin)", "DecOutgoing_guard_1(supply_OutgoingSupply,coin)", "createHTLT_call_IncrementIncomingAssetSupply_1_arg1(amount_0)", "createHTLT_call_IncrementOutgoingAssetSupply_1_arg1(amount_0)", "createHTLT_guard_1(read_len_amount)", "createHTLT_guard_2(amount_0,asset_MinSwapAmount,asset_MaxSwapAmount)", "createHTLT_guard_3(timestamp,pastTimestampLimit,futureTimestampLimit)", "createHTLT_cond_4(read_sender_Equals_deputyAddress)", "createHTLT_guard_5(read_to_Equals_deputyAddress)", "createHTLT_guard_6(read_to_Equals_deputyAddress)", "createHTLT_guard_7(timeLock,asset_MinBlockLock,asset_MaxBlockLock)", "createHTLT_guard_8(amount_0,asset_FixedFee,asset_MinSwapAmount)", "claimHTLT_call_DecrementIncomingAssetSupply_1_arg1(htlc_Amount_0)", "claimHTLT_call_IncrementCurrentAssetSupply_1_arg1(htlc_Amount_0)", "claimHTLT_call_DecrementOutgoingAssetSupply_1_arg1(htlc_Amount_0)", "claimHTLT_call_DecrementCurrentAssetSupply_1_arg1(htlc_Amount_0)", "refundHTLT_call_DecrementIncomingAssetSupply_1_arg1(amount_0)", "refundHTLT_call_DecrementOutgoingAssetSupply_1_arg1(amount_0)", "UpdateWindow_newTimeElapsed_1(supply_TimeElapsed,timeElapsed)", "UpdateWindow_supply_TimeElapsed_1(newTimeElapsed)", "UpdateWindow_supply_TimeElapsed_2()", "UpdateWindow_cond_1(asset_SupplyLimit_TimeLimited,newTimeElapsed,asset_SupplyLimit_TimePeriod)"]
+def translated : List String := ["IncCurrent_supplyLimit_1(coin,limit_Limit)", "IncCurrent_guard_1(supplyLimit,supply_CurrentSupply,coin)", "IncCurrent_cond_2(limit_TimeLimited)", "IncCurrent_timeBasedSupplyLimit_1(coin,limit_TimeBasedLimit)", "IncCurrent_guard_3(timeBasedSupplyLimit,supply_TimeLimitedCurrentSupply,coin)", "IncCurrent_supply_TimeLimitedCurrentSupply_1(supply_TimeLimitedCurrentSupply,coin)", "IncCurrent_supply_CurrentSupply_1(supply_CurrentSupply,coin)", "DecCurrent_guard_1(supply_CurrentSupply,coin)", "DecCurrent_supply_CurrentSupply_1(supply_CurrentSupply,coin)", "IncIncoming_totalSupply_1(supply_CurrentSupply,supply_IncomingSupply)", "IncIncoming_supplyLimit_1(coin,limit_Limit)", "IncIncoming_guard_1(supplyLimit,totalSupply,coin)", "IncIncoming_cond_2(limit_TimeLimited)", "IncIncoming_timeLimitedTotalSupply_1(supply_TimeLimitedCurrentSupply,supply_IncomingSupply)", "IncIncoming_timeBasedSupplyLimit_1(coin,limit_TimeBasedLimit)", "IncIncoming_guard_3(timeBasedSupplyLimit,timeLimitedTotalSupply,coin)", "IncIncoming_supply_IncomingSupply_1(supply_IncomingSupply,coin)", "DecIncoming_guard_1(supply_IncomingSupply,coin)", "DecIncoming_supply_IncomingSupply_1(supply_IncomingSupply,coin)", "IncOutgoing_guard_1(supply_CurrentSupply,supply_OutgoingSupply,coin)", "IncOutgoing_supply_OutgoingSupply_1(supply_OutgoingSupply,coin)", "DecOutgoing_guard_1(supply_OutgoingSupply,coin)", "DecOutgoing_supply_OutgoingSupply_1(supply_OutgoingSupply,coin)", "createHTLT_guard_1(read_len_amount)", "createHTLT_guard_2(amount_0,asset_MinSwapAmount,asset_MaxSwapAmount)", "createHTLT_guard_3(timestamp,pastTimestampLimit,futureTimestampLimit)", "createHTLT_cond_4(read_sender_Equals_deputyAddress)", "createHTLT_guard_5(read_to_Equals_deputyAddress)", "createHTLT_guard_6(read_to_Equals_deputyAddress)", "createHTLT_call_IncrementIncomingAssetSupply_1_arg1(amount_0)", "createHTLT_guard_7(timeLock,asset_MinBlockLock,asset_MaxBlockLock)", "createHTLT_guard_8(amount_0,asset_FixedFee,asset_MinSwapAmount)", "createHTLT_call_IncrementOutgoingAssetSupply_1_arg1(amount_0)", "claimHTLT_call_DecrementIncomingAssetSupply_1_arg1(htlc_Amount_0)", "claimHTLT_call_IncrementCurrentAssetSupply_1_arg1(htlc_Amount_0)", "claimHTLT_call_DecrementOutgoingAssetSupply_1_arg1(htlc_Amount_0)", "claimHTLT_call_DecrementCurrentAssetSupply_1_arg1(htlc_Amount_0)", "refundHTLT_call_DecrementIncomingAssetSupply_1_arg1(amount_0)", "refundHTLT_call_DecrementOutgoingAssetSupply_1_arg1(amount_0)", "UpdateWindow_newTimeElapsed_1(supply_TimeElapsed,timeElapsed)", "UpdateWindow_cond_1(asset_SupplyLimit_TimeLimited,newTimeElapsed,asset_SupplyLimit_TimePeriod)", "UpdateWindow_supply_TimeElapsed_1(newTimeElapsed)", "UpdateWindow_supply_TimeElapsed_2()"]
 
 end Irismod.Gen.PureHtlc
